@@ -470,6 +470,28 @@ class FnWeaver:
                                       (stmts, 'repo', self.rel, line0), ('return; }\n', 'repo', self.rel, line0)]))
         self.rules.add('D14')
 
+    def summarize_loop(self, n, text):
+        """D18: loop n (label and header included) is replaced by the one-line call `text` to a loop-summary function declared in the template.
+        The summary's contract is the loop invariant; that the loop body (outlined by D6 and proved in its own unit) preserves it is checked by a
+        step function in the template; what is assumed is the induction over the iteration (same assumption as D6)."""
+        ls = self.loops()
+        if n < 1 or n > len(ls):
+            self.lost.append('loop %d of %s (function has %d loops)' % (n, self.qual, len(ls)))
+            return
+        s = self.src
+        kw, ob = ls[n - 1]
+        cb = s.matches()[ob]
+        a = s.toks[kw][1]
+        pk = s.prev_code(kw)
+        if pk is not None and s.is_p(pk, ':'):
+            lab = s.prev_code(pk)
+            if lab is not None and s.toks[lab][0] == 'life':
+                a = s.toks[lab][1]
+        b = s.toks[cb][2]
+        nl = self.text[a:b].count('\n')
+        self.edits.append((a, b, [(text + '\n' * nl, 'tmpl', self.tmpl_file, 0)]))
+        self.rules.add('D18')
+
     def replace_arm(self, regex, replacement):
         """D8: the block of the match arm whose first line matches `regex` is replaced by `replacement` (nothing is concluded about that arm)"""
         rx = re.compile(regex)
@@ -776,7 +798,15 @@ class FnWeaver:
         edits = sorted(self.edits, key=lambda e: (e[0], e[1]))
         # a replaced region (rule D8) swallows the automatic edits that fall strictly inside it
         spans = [(a, b) for (a, b, _) in edits if b > a]
-        edits = [e for e in edits if not any(x < e[0] and e[1] < y and (e[0], e[1]) != (x, y) for (x, y) in spans)]
+        kept = []
+        for e in edits:
+            if any(x < e[0] and e[1] < y and (e[0], e[1]) != (x, y) for (x, y) in spans):
+                if any(seg[1] == 'tmpl' for seg in e[2]):
+                    # a proof hint of the template landed inside a region that a D8/D14/D18 rewrite replaces: it is gone, say so
+                    self.lost.append('hint at %s:%d of %s falls inside a replaced region' % (self.rel, self.line_at(e[0]), self.qual))
+                continue
+            kept.append(e)
+        edits = kept
         pos = 0
         for i, (a, b, segs) in enumerate(edits):
             if a < pos:
@@ -1035,6 +1065,9 @@ def weave(unit_path):
                     fw.add_end(blk, blk_line)
                 elif sd == 'loopend':
                     fw.add_loop_end(int(sarg), blk, blk_line)
+                elif sd == 'summarize':
+                    mm3 = re.match(r'(\d+)\s*=>\s*(.*)$', sarg)
+                    fw.summarize_loop(int(mm3.group(1)), mm3.group(2))
                 elif sd == 'hoistexit':
                     la = sarg.split(None, 1)
                     carry = []
